@@ -196,7 +196,8 @@ int fill_unpacked_files(size_t blk_sz, const sqfs_tree_node_t *root,
 		return -1;
 	}
 
-	qsort(files, num_files, sizeof(files[0]), compare_files);
+	if (num_files > 0)
+		qsort(files, num_files, sizeof(files[0]), compare_files);
 
 	status = fill_files(data, flags);
 	clear_file_list();
